@@ -36,7 +36,7 @@ func patternPopulation(c *ctx, forC10 bool) []patCase {
 	// 1. exhaustive small trees over a tiny alphabet
 	cfgSmall := reGenCfg{atoms: []*reNode{lit('a'), lit('b'), leaf("[ab]", rsOf('a', 'b'))}, quants: smallQuants()}
 	e := newReEnum(cfgSmall)
-	maxSize := c.n(3, 4)
+	maxSize := c.n(4, 5)
 	for n := 1; n <= maxSize; n++ {
 		xs := e.expr(n)
 		limit := c.n(6000, 120000)
@@ -132,9 +132,9 @@ func patternPopulation(c *ctx, forC10 bool) []patCase {
 	}
 	// 5. seeded random larger trees
 	r := c.rng("random")
-	nRand := c.n(1500, 30000)
+	nRand := c.n(12000, 250000)
 	if forC10 {
-		nRand = c.n(500, 8000)
+		nRand = c.n(8000, 150000)
 	}
 	for i, t := range randomPatterns(r, nRand) {
 		if forC10 {
